@@ -1,6 +1,7 @@
 package main
 
 import (
+	"fmt"
 	"strings"
 
 	pt "github.com/weedbox/pokertable"
@@ -55,7 +56,21 @@ func init() {
 				hc.between = []string{"none", "arrive", "sitout", "rebuy", "leave-busted", "leave-live"}
 				hc.mid = []string{"none", "arrive", "leave-sitout"}
 			}
-			return histSuites("c06/", cfgs, bound, func(h *hist) []Monitor { return []Monitor{newMonC06()} })
+			ss := histSuites("c06/", cfgs, bound, func(h *hist) []Monitor { return []Monitor{newMonC06()} })
+			// label-table sweep: every number of dealt-in players 2..10 (all present) on 10 seats, two fold-out hands,
+			// at most one departure / bust-free change in between (a departure of the dealer or SB gives a dead slot,
+			// so every slot count is reached with and without dead seats)
+			var sweep []*histCfg
+			for k := 2; k <= 10; k++ {
+				tc := defaultCfg(10)
+				var init []seatSpec
+				for i := 0; i < k; i++ {
+					init = append(init, seatSpec{id: string(rune('a' + i)), seat: (i * 10) / k, chips: 9, joined: true})
+				}
+				sweep = append(sweep, &histCfg{name: fmt.Sprintf("sweep/dealt-in-%d-on-10-seats", k), tcfg: tc, init: init, hands: 2,
+					lines: []string{"foldout"}, newStack: 5, between: []string{"none", "leave-live"}})
+			}
+			return append(ss, histSuites("c06/", sweep, 1, func(h *hist) []Monitor { return []Monitor{newMonC06()} })...)
 		},
 	})
 	register(&Check{
@@ -75,6 +90,17 @@ func init() {
 				hc.late = []string{"none", "close", "release", "pause", "blind-break", "arrive", "leave-live"}
 				hc.finish = []string{"all", "none", "first"}
 				hc.panicsAreDiagnostics = true
+			}
+			// tables whose playing time runs out after the second hand (CT / cash): the last hand must still be
+			// wrapped up (standby, per-hand fields reset) and no further hand opens
+			for _, mode := range []string{pt.CompetitionMode_CT, pt.CompetitionMode_Cash, pt.CompetitionMode_MTT} {
+				tc := defaultCfg(3)
+				tc.Mode = mode
+				tc.MaxDuration = 4
+				cfgs = append(cfgs, &histCfg{name: "time-up-after-4s/" + mode, tcfg: tc, hands: 4,
+					init:  []seatSpec{{id: "a", seat: 0, chips: 9, joined: true}, {id: "b", seat: 1, chips: 9, joined: true}, {id: "c", seat: 2, chips: 9, joined: true}},
+					lines: []string{"foldout", "checkdown"}, decks: []string{"asc"}, newStack: 5,
+					between: []string{"none", "arrive", "setup-again"}, finish: []string{"all", "none"}, panicsAreDiagnostics: true})
 			}
 			return append(histSuites("c07/", cfgs, bound, func(h *hist) []Monitor { return []Monitor{newMonC07(h)} }), c07SchedSuites(tier)...)
 		},
